@@ -103,6 +103,8 @@ Script ==
     [] ScriptName = "s2" -> NC \o NCC \o NJC \o <<"Hb">> \o NC \o <<"Db", "H", "Tt">> \o NC \o <<"R">>
     \* out-of-order data: WBL, out-of-order compaction, head compaction with out-of-order head and vertical block compaction
     [] ScriptName = "s3" -> NC \o NC \o NOC \o <<"Oo">> \o NC \o NOC \o NJC \o <<"Hb">> \o NJC \o <<"Hb", "R">>
+    \* out-of-order data left in the WBL (also across a restart) and in m-mapped chunks, no compaction (C04)
+    [] ScriptName = "d1" -> NC \o NCC \o NOC \o NOC \o NC \o <<"R">> \o NOC \o NC \o NOC
     \* rollback of a new series, rejected append, commit
     [] ScriptName = "s4" -> NC \o NC \o <<"N", "Ax", "Ai", "C", "N", "Ai", "B", "R">> \o NC \o <<"N", "Ai", "B">> \o NJC \o <<"Hb">>
 
@@ -654,9 +656,19 @@ CReopen ==
   /\ pc = "idle" /\ ScriptOK("Reopen")
   /\ Reopen
   /\ LET p1 == CloseProg(Files) IN Begin("Reopen", p1 \o OpenProg(Files))
-  \* Head.Init ends with a gc: series without data in the head are not in memory afterwards
-  /\ cur' = [s \in Series |-> IF HasHead(ino', [x \in Series |-> Range(ooh'[x]) \cup oom'[x]], s) THEN cur[s] ELSE 0]
-  /\ wexp' = {} /\ lastTrunc' = NegInf
+  \* loadWAL: a series keeps the ref of its first series record in the log; later records of the same labels are
+  \* duplicates (multiRef) whose refs are kept in walExpiries up to their newest sample.  Head.Init ends with a gc:
+  \* series without data in the head are not in memory afterwards (their ref goes to walExpiries too).
+  /\ LET recs == WalRecs(Files)
+         gens(s) == UNION {{x[2] : x \in {y \in r.refs : y[1] = s}} : r \in {q \in Range(recs) : q.k = "ser"}}
+         first(s) == IF gens(s) = {} THEN cur[s] ELSE SetMin(gens(s))
+         alive(s) == HasHead(ino', [x \in Series |-> Range(ooh'[x]) \cup oom'[x]], s)
+         smpT(ref) == UNION {{x.t : x \in {y \in Range(r.smp) : y.ref = ref /\ y.t >= blkMax}} : r \in {q \in Range(recs) : q.k = "smp"}}
+     IN /\ cur' = [s \in Series |-> IF alive(s) THEN first(s) ELSE 0]
+        /\ wexp' = UNION {{[ref |-> <<s, g>>, until |-> SetMax(smpT(<<s, g>>))] :
+                               g \in {x \in 1..4 : x \in gens(s) /\ x # first(s) /\ smpT(<<s, x>>) # {}}} : s \in Series}
+                    \cup {[ref |-> <<s, first(s)>>, until |-> InoMin(ino')] : s \in {x \in Series : gens(x) # {} /\ ~alive(x)}}
+  /\ lastTrunc' = NegInf
   /\ UNCHANGED <<nextId, ngen, mine>>
 
 -----------------------------------------------------------------------------
